@@ -6,7 +6,7 @@
     a function; for Rand it is a function of the draw stream. *)
 From Coq Require Import NArith List Bool.
 From ADF Require Import Spec.Spec Spec.Theory Bdd.Store Bdd.WF Bdd.Node Bdd.Ops Adf.Native Adf.NativeBase
-     Adf.GroundedProofs Adf.CompleteProofs Adf.StableProofs Adf.BridgeProofs.
+     Adf.GroundedProofs Adf.CompleteProofs Adf.StableProofs Adf.BridgeProofs Gen.GenFlags Gen.TieFlagRepair Bdd.Rebuild Bdd.Repair Adf.PersistProofs.
 Import ListNotations.
 Local Open Scope N_scope.
 
@@ -44,3 +44,20 @@ Print Assumptions C11_handles_stable.
 Theorem C11_calls_extend : forall c st ac st' g, WF c st -> ac_ok st ac -> grounded c st ac = Some (st', g) -> WF c st' /\ extends st st'.
 Proof. intros c st ac st' g W A X. destruct (grounded_exact c st ac st' g W A X) as (H1 & H2 & _). split; assumption. Qed.
 Print Assumptions C11_calls_extend.
+
+(** the repair step fix_import is a public call like any other: applied to a live object (or twice) it
+    leaves a store satisfying the invariant whose roots denote the same ADF, so every later answer is that of
+    a fresh object by the theorems above (the source rebuilds the variable sets from an empty table:
+    Gen/TieFlagRepair.v; the appending variant of the pinned tree broke this - C14_repair_on_live_store_breaks_it,
+    repaired in /repo) *)
+Theorem C11_source_repair_rebuilds_from_scratch : g_fix_import_clears = true.
+Proof. exact fix_import_rebuilds_from_scratch. Qed.
+Print Assumptions C11_source_repair_rebuilds_from_scratch.
+Theorem C11_redundant_repair_keeps_the_adf : forall c st ac, WF c st -> ac_ok st ac ->
+  WF c (fix_import_x true c st) /\ ac_ok (fix_import_x true c st) ac /\
+  adf_eq (abs (fix_import_x true c st) ac) (abs st ac).
+Proof.
+  intros c st ac W A. destruct (fix_import_repaired_wf c st W) as [W' S].
+  split; [exact W'|]. split; [exact (same_tab_ac_ok st _ ac S A)|exact (same_tab_abs st _ ac S)].
+Qed.
+Print Assumptions C11_redundant_repair_keeps_the_adf.
